@@ -281,7 +281,7 @@ Print Assumptions C10_pinned_with_precision_refuted.
 From Coq Require Import QArith Reals Qreals.
 From Dashu Require Import Float.RoundOpsDeep Float.RoundOpsDeepProof Float.RoundOpsTinyProof Float.RoundPrimGenProof Float.RoundTwiceProof Float.RoundTwiceFloat
   Float.DivMulModel Float.FilterProof Float.F32Flocq Ratio.RatRoundGenProof.
-From Dashu Require Import Float.RoundAssertModel Float.RoundAssertProof Float.FilterLargeProof Float.RoundOpsGenProof.
+From Dashu Require Import Float.RoundAssertModel Float.RoundAssertProof Float.FilterLargeProof Float.RoundOpsGenProof Float.FilterLargeEntry.
 From DashuGen Require Import RatioSmall RoundPrimGen ElemParams RoundOpsGen.
 Open Scope Z_scope.
 
@@ -751,3 +751,55 @@ Proof.
     (split_internal_gen_is_model B dub p s e))))))))).
 Qed.
 Print Assumptions C10_entry_point_bodies_generated.
+
+(** Context::repr_round / repr_round_ref (float/src/repr.rs: finiteness assertion, digit count, split, round_fract,
+    Repr::new of the adjusted significand) and the condition under which FBig::with_precision rounds, regenerated, are the
+    models of C10_with_precision_full *)
+Theorem C10_digit_removal_generated : forall B (rf : mode -> Z -> Z -> Z -> rounding) m p s e np,
+  repr_round_gen B (round_fract_chk_rf B rf) p m s e = assert_finite s e (rmap (norm_approx B) (repr_round_rf B rf p m s e)) /\
+  repr_round_ref_gen B (round_fract_chk_rf B rf) p m s e = repr_round_gen B (round_fract_chk_rf B rf) p m s e /\
+  (if with_precision_rounds_gen p np then repr_round_gen B (round_fract_chk_rf B rf) np m s e else Ok (AExact s e)) =
+    with_precision_full B rf m p s e np.
+Proof.
+  exact (fun B rf m p s e np => conj (proj1 (repr_round_gen_is_model B rf p m s e))
+           (conj (proj2 (repr_round_gen_is_model B rf p m s e)) (with_precision_gen_is_model B rf m p s e np))).
+Qed.
+Print Assumptions C10_digit_removal_generated.
+
+(** the precision attached to the results (documented at FBig::round): an integer keeps its precision; otherwise the
+    number of digits after the radix point is subtracted (saturating) - or the result is one of the shortcut constants
+    0, 1, -1 with precision 0; the fractional part carries the digit count of the fraction (split_at_point's shortcut for
+    |x| < 1 returns the float itself) *)
+Theorem C10_result_precisions : forall B digits_ub (rf : mode -> Z -> Z -> Z -> rounding) p s e,
+  (forall f, trunc_full B digits_ub p s e = Ok f -> prec_int_ok p e f) /\
+  (forall f, floor_full B digits_ub rf p s e = Ok f -> prec_int_ok p e f) /\
+  (forall f, ceil_full B digits_ub rf p s e = Ok f -> prec_int_ok p e f) /\
+  (forall f, round_full B digits_ub rf p s e = Ok f -> prec_int_ok p e f) /\
+  (forall f, fract_full B digits_ub p s e = Ok f -> snd f = if 0 <=? e then 0 else - e) /\
+  (forall t f, split_full B digits_ub p s e = Ok (t, f) ->
+     prec_int_ok p e t /\ (if 0 <=? e then snd f = 0 else (snd f = - e \/ snd f = p))).
+Proof. exact entry_precisions. Qed.
+Print Assumptions C10_result_precisions.
+
+(* ---------------------------------------------------------------- the entry points with the filter as written, no digit bound *)
+
+(** FBig::to_int with Round::round_fract AS WRITTEN (f32 pre-filter in Flocq's binary32, TypedReprRef::log2_bounds from any
+    sound double-word bounds, any sound bounds of the base): the specification at every exponent, for significands of fewer
+    than 2^34 bits - the bound "fewer than 2^24 digits after the radix point" of C10_to_int_f32 is gone *)
+Theorem C10_to_int_f32_any_exponent : forall lbs ubs : Z -> Q,
+  (forall h, 0 < h < 2 ^ 128 -> (Q2R (lbs h) <= log2R (IZR h) <= Q2R (ubs h))%R) ->
+  forall B, 2 <= B -> forall b_lb b_ub : Q, (Q2R b_lb <= log2R (IZR B) <= Q2R b_ub)%R ->
+  forall digits_ub, (forall s, dlen B s <= digits_ub s) ->
+  forall m p s e, is_inf s e = false -> (e < 0 -> s mod B <> 0) -> Z.log2 (Z.abs s) < 2 ^ 34 ->
+  to_int_full B digits_ub (rf32 lbs ubs B b_lb b_ub) m p s e = Ok (to_int_spec B m s e).
+Proof. exact to_int_f32_any_exponent. Qed.
+Print Assumptions C10_to_int_f32_any_exponent.
+
+(** FBig::with_precision likewise: any number of removed digits *)
+Theorem C10_with_precision_f32_any : forall lbs ubs : Z -> Q,
+  (forall h, 0 < h < 2 ^ 128 -> (Q2R (lbs h) <= log2R (IZR h) <= Q2R (ubs h))%R) ->
+  forall B, 2 <= B -> forall b_lb b_ub : Q, (Q2R b_lb <= log2R (IZR B) <= Q2R b_ub)%R ->
+  forall m p s e np, is_inf s e = false -> 0 <= p -> 0 <= np -> (p = 0 \/ dlen B s <= p) -> Z.log2 (Z.abs s) < 2 ^ 34 ->
+  with_precision_full B (rf32 lbs ubs B b_lb b_ub) m p s e np = Ok (norm_approx B (with_precision_spec B m s e np)).
+Proof. exact with_precision_f32_any. Qed.
+Print Assumptions C10_with_precision_f32_any.
